@@ -225,6 +225,8 @@ func observe(seed int64, nInputs, reps int) []map[string]any {
 			}
 		}
 	}
+	// the package's table once more, after every reader and writer has run
+	rec("psenc.StandardEncoding", "table", sha([]byte(strings.Join(psenc.StandardEncoding[:], " "))), 2)
 	_ = ps.NewInterpreter
 	return out
 }
